@@ -82,6 +82,7 @@ type RefResult struct {
 	Handler      []HandlerCall
 	Class        []TokClass // per original argv index
 	Sources      map[string]string
+	TokOpt       map[int][]string // argv index of an option token -> option IDs it named
 }
 
 type helpMarker struct{}
@@ -111,6 +112,7 @@ type refRun struct {
 	args    []tok
 	helpOpt *OptInfo
 	replDone bool
+	curIdx   int
 	optsOf  map[*Cmd][]*OptInfo
 }
 
@@ -253,6 +255,9 @@ func (r *refRun) applyText(o *OptInfo, text string) *RefErr {
 // occurrence handles one occurrence of option o. inline: attached argument;
 // canNext: this spelling may take the next token as argument.
 func (r *refRun) occurrence(o *OptInfo, inline *string, canNext bool) *RefErr {
+	if r.curIdx >= 0 {
+		r.res.TokOpt[r.curIdx] = append(r.res.TokOpt[r.curIdx], o.ID)
+	}
 	if o == r.helpOpt {
 		if inline != nil {
 			return &RefErr{Types: []flags.ErrorType{flags.ErrNoArgumentForBool}, Name: "-h, --help", Why: "argument for help flag"}
@@ -368,7 +373,7 @@ func Ref(in *RefInput) *RefResult {
 	d := in.D
 	res := &RefResult{
 		Vals: map[string]interface{}{}, Occ: map[string]int{}, PosVals: map[string]interface{}{},
-		Class: make([]TokClass, len(in.Args)), Sources: map[string]string{},
+		Class: make([]TokClass, len(in.Args)), Sources: map[string]string{}, TokOpt: map[int][]string{},
 	}
 	for i := range res.Class {
 		res.Class[i] = TcUnparsed
@@ -434,6 +439,7 @@ loop:
 		}
 		// option token
 		r.class(t, TcOption)
+		r.curIdx = t.idx
 		if strings.HasPrefix(t.s, "--") {
 			body := t.s[2:]
 			name := body
